@@ -546,14 +546,18 @@ def _ends_with_slash_states(fn, g, d):
         return False
     out = {b: True for b in cfg.blocks}
     inn = {b: True for b in cfg.blocks}
+    reach = cfg.reachable()
     changed = True
     while changed:
         changed = False
         for b in cfg.blocks:
-            if b == cfg.entry or not cfg.pred[b]:
+            if b not in reach:
+                continue        # dead code constrains nothing
+            preds = [p for p in cfg.pred[b] if p in reach]
+            if b == cfg.entry or not preds:
                 i = False
             else:
-                i = all(out[p] or edge_gen(p, b) for p in cfg.pred[b])
+                i = all(out[p] or edge_gen(p, b) for p in preds)
             st = i
             for e in cfg.blocks[b]["e"]:
                 x = fn.nodes.get(e) if isinstance(e, int) else None
